@@ -257,6 +257,70 @@ func wrongKey(c config, others []config, plain string) []finding {
 	return out
 }
 
+// sharedBuffers: the settings' byte slices belong to the caller. Two filespaces built from the
+// SAME secret buffer (with spare capacity) and different salts must stay independent, and a
+// caller that wipes or reuses its buffers after construction must not change a live filespace.
+func sharedBuffers(c config, plain string) []finding {
+	var out []finding
+	add := func(kind, clause, detail string) {
+		out = append(out, finding{kind, clause, detail, witness{Config: c, Part: "sharedbuf", PlainN: len(plain)}})
+	}
+	fsx.RunSeq(func() {
+		base, done := newBase(c.Base)
+		defer done()
+		secret := make([]byte, len(c.Secret), 96)
+		copy(secret, c.Secret)
+		saltA := make([]byte, 5, 64)
+		copy(saltA, "saltA")
+		saltB := []byte("saltB")
+		mk := func(salt []byte) filesystem.Filespace {
+			fs, err := encryptfs.NewEncryptFS(base, encryptfs.Settings{Secret: secret, Salt: salt, HostOnly: c.HostOnly, Cipher: c.cipher()})
+			if err != nil {
+				panic(err)
+			}
+			return fs
+		}
+		fsA := mk(saltA)
+		if r := write(fsA, "fa", plain, wpaths[0]); !r.OK() {
+			add("write-failed", "whatever is written is read back", fmt.Sprintf("%+v", r))
+			return
+		}
+		fsB := mk(saltB) // same secret buffer, other salt
+		if r := write(fsB, "fb", plain, wpaths[1]); !r.OK() {
+			add("write-failed", "whatever is written is read back", fmt.Sprintf("%+v", r))
+			return
+		}
+		if r := read(fsA, "fa", rpaths[0]); !r.OK() || r.Data != plain {
+			add("second-filespace-changed-the-first", "read back identically by a filespace with the same secret, salt and host binding", fmt.Sprintf("after a second filespace was built from the same secret buffer with another salt, the first can no longer read its own file: err=%q", r.Err))
+		}
+		if r := read(fsA, "fb", rpaths[0]); r.Err == "" && r.Panic == "" {
+			add("other-salt-accepted-after-shared-buffer", "bytes produced with another salt are answered with an error", "the filespace with salt A decrypted a file written with salt B (both built from one secret buffer)")
+		}
+		if r := read(fsB, "fa", rpaths[2]); r.Err == "" && r.Panic == "" {
+			add("other-salt-accepted-after-shared-buffer", "bytes produced with another salt are answered with an error", "the filespace with salt B decrypted a file written with salt A (both built from one secret buffer)")
+		}
+		// the caller wipes its buffers
+		for i := range secret[:cap(secret)] {
+			secret[:cap(secret)][i] = 0
+		}
+		for i := range saltA {
+			saltA[i] = 'z'
+		}
+		if r := read(fsA, "fa", rpaths[2]); !r.OK() || r.Data != plain {
+			add("caller-buffer-wipe-changed-the-key", "read back identically by a filespace with the same secret, salt and host binding", fmt.Sprintf("after the caller wiped the secret/salt buffers it had passed in, the filespace can no longer read its file: err=%q", r.Err))
+		}
+		if r := write(fsA, "fc", plain, wpaths[2]); r.OK() {
+			fresh, err := encryptfs.NewEncryptFS(base, encryptfs.Settings{Secret: []byte(c.Secret), Salt: []byte("saltA"), HostOnly: c.HostOnly, Cipher: c.cipher()})
+			if err == nil {
+				if r2 := read(fresh, "fc", rpaths[0]); !r2.OK() || r2.Data != plain {
+					add("caller-buffer-wipe-changed-the-key", "read back identically by a filespace with the same secret, salt and host binding", fmt.Sprintf("a file written after the caller wiped its buffers is not readable with the original secret and salt: err=%q", r2.Err))
+				}
+			}
+		}
+	})
+	return out
+}
+
 // tamperOne reads the given raw bytes through the encrypted filespace (fresh base each time).
 func tamperOne(c config, raw []byte, r rpath) fsx.Result {
 	var res fsx.Result
@@ -432,6 +496,15 @@ func run(c *fw.Ctx) {
 				}
 			}
 		}
+		// part B2: settings buffers shared with / reused by the caller
+		item++
+		if c.Mine(item) && cfg.Salt == "salt1" {
+			c.R.Evaluations += 6
+			c.Count("shared_buffer_cases", 1)
+			for _, f := range sharedBuffers(cfg, plains[3]) {
+				report(f)
+			}
+		}
 		// part C: every truncation and every single-byte corruption (memory base only is
 		// enough for the cipher; disk base exercises the os.File reader path for truncations)
 		if cfg.Secret == "alpha" && cfg.Salt == "salt1" && !cfg.HostOnly {
@@ -558,6 +631,10 @@ func replay(w json.RawMessage) (*fw.Violation, error) {
 		if fs := wrongKey(wit.Config, []config{*wit.Other}, plain); len(fs) > 0 {
 			return mkv(fs[0].kind, fs[0].clause, fs[0].detail), nil
 		}
+	case "sharedbuf":
+		if fs := sharedBuffers(wit.Config, plain); len(fs) > 0 {
+			return mkv(fs[0].kind, fs[0].clause, fs[0].detail), nil
+		}
 	case "truncate", "corrupt":
 		raw := storedBytes(wit.Config, plain, find(wit.W))
 		if wit.Part == "truncate" {
@@ -577,7 +654,7 @@ func replay(w json.RawMessage) (*fw.Violation, error) {
 
 func init() {
 	fw.Register(&fw.Check{ID: "C05", Level: "fault_enumeration",
-		Rule: "configurations = cipher{raw AES-GCM, tagged} x base{memory, disk} x secret{alpha,beta,''} x salt{salt1,salt2,''} x host-binding{off,on}; plaintexts of length {0,1,16,17,4096,(thorough: 15,33,70000)}; write path {WriteFile, Writer 1/3 chunks} x previous content {absent, shorter, longer} x read path {ReadFile, Reader buf 1/7/4096}; every other (secret,salt) of the pool plus one concatenation-colliding pair; EVERY truncation length 0..N-1 and EVERY single-byte corruption (N positions x 255 values for short files; 3 values and strided interior positions for files > 300 bytes) of the stored bytes, each read on a fresh base; name-space ops in lock-step with the tree model. distinct = cases, all non-trivial (each runs the real cipher)",
+		Rule: "configurations = cipher{raw AES-GCM, tagged} x base{memory, disk} x secret{alpha,beta,''} x salt{salt1,salt2,''} x host-binding{off,on}; plaintexts of length {0,1,16,17,4096,(thorough: 15,33,70000)}; write path {WriteFile, Writer 1/3 chunks} x previous content {absent, shorter, longer} x read path {ReadFile, Reader buf 1/7/4096}; every other (secret,salt) of the pool plus one concatenation-colliding pair; two filespaces built from one caller-owned secret buffer with spare capacity and different salts, and the caller wiping its buffers afterwards; EVERY truncation length 0..N-1 and EVERY single-byte corruption (N positions x 255 values for short files; 3 values and strided interior positions for files > 300 bytes) of the stored bytes, each read on a fresh base; name-space ops in lock-step with the tree model. distinct = cases, all non-trivial (each runs the real cipher)",
 		Run: run, Replay: replay,
 		Assumptions: []string{"crypto/rand.Reader is replaced by a deterministic never-repeating stream (nonce freshness stays observable)", "cryptographic strength is out of scope; host binding is exercised but a binding mismatch is not required to fail (the statement does not demand it)", "secrecy = stored bytes do not contain the plaintext (>= 8 bytes) nor its first 16 bytes"}})
 }
